@@ -268,27 +268,19 @@ class Documentable:
         # invariants assumed by various bits of pydoctor
         # and that are of course not written down anywhere
         # :/
-        self._handle_reparenting_pre()
+        below = self.system._objectsBelow(self)
+        for o in below:
+            del self.system.allobjects[o.fullName()]
         old_parent = self.parent
         assert isinstance(old_parent, CanContainImportsDocumentable)
         old_name = self.name
         self.parent = self.parentMod = new_parent
         self.name = new_name
-        self._handle_reparenting_post()
         del old_parent.contents[old_name]
         old_parent._localNameToFullName_map[old_name] = self.fullName()
         new_parent.contents[new_name] = self
-        self._handle_reparenting_post()
-
-    def _handle_reparenting_pre(self) -> None:
-        del self.system.allobjects[self.fullName()]
-        for o in self.contents.values():
-            o._handle_reparenting_pre()
-
-    def _handle_reparenting_post(self) -> None:
-        self.system.allobjects[self.fullName()] = self
-        for o in self.contents.values():
-            o._handle_reparenting_post()
+        for o in below:
+            self.system.allobjects[o.fullName()] = o
     
     def _localNameToFullName(self, name: str) -> str:
         raise NotImplementedError(self._localNameToFullName)
@@ -1399,14 +1391,27 @@ class System:
             i += 1
         prev = self.allobjects[fullName]
         obj.report(f"duplicate {str(prev)}", thresh=1)
-        self._remove(prev)
+        below = self._objectsBelow(prev)
+        for o in below:
+            del self.allobjects[o.fullName()]
         prev.name = obj.name + ' ' + str(i)
-        def readd(o: Documentable) -> None:
+        for o in below:
             self.allobjects[o.fullName()] = o
-            for c in o.contents.values():
-                readd(c)
-        readd(prev)
         self.allobjects[fullName] = obj
+
+    def _objectsBelow(self, top: Documentable) -> List[Documentable]:
+        """
+        C{top} and every registered object that has C{top} among its parents. 
+        This includes older definitions of a name that have been superseded by a 
+        later one: those are not in the C{contents} of their parent anymore.
+        """
+        def isBelow(o: Optional[Documentable]) -> bool:
+            while o is not None:
+                if o is top:
+                    return True
+                o = o.parent
+            return False
+        return [o for o in self.allobjects.values() if isBelow(o)]
 
 
     def getProcessedModule(self, modname: str) -> Optional[_ModuleT]:
